@@ -750,7 +750,14 @@ def run(ctx):
         io = [i for i in f.calls() if f.N(i)['k'] in ('CXXOperatorCallExpr', 'CXXMemberCallExpr') and (f.callee(i) or '').endswith(('operator<<', 'operator>>')) and any(s_ in f.subtree_refs(i) for s_ in streams)]
         ok = len(streams) == 1 and len(imb) == 1 and bool(io) and all(q.before(f, imb[0], i) for i in io)
         ctx.check(ok, R13, '%s:classic-locale-before-the-value' % f.id.split('(')[0].replace('cppcms::session_interface::', ''), 'the conversion does not imbue std::locale::classic() on its stream before the value passes through: writer and reader disagree under a global locale with digit grouping', f.where)
-    ctx.floor(R13, 5)
+    # assigning a value keeps the entry's other attributes (an exposed key stays exposed)
+    sset = [g for g in P.by_bname.get('cppcms::session_interface::set', []) if g.body is not None and len(g.params) == 2 and '<' not in g.id.split('(')[0] and 'basic_string' in (g.types[g.params[1]['t']] or '')]
+    ctx.require(len(sset) == 1, 'C06.R13: session_interface::set(key, string) not found')
+    ss_ = sset[0]
+    vw = [w_ for w_ in q.field_writes(ss_, 'entry::value') if q.param_by_index(ss_, 1) in ss_.subtree_refs(ss_.N(w_)['ch'][-1])]
+    whole = [i for i in ss_.all_nodes() if ss_.N(i)['k'] == 'CXXOperatorCallExpr' and ss_.N(i).get('op') == '=' and 'session_interface::entry' in (ss_.callee(i) or '')]
+    ctx.check(len(vw) == 1 and not whole and q.always_before_exit(ss_, vw), R13, 'set(key,value):changes-the-value-only', 'assigning a value replaces the whole entry: the exposed flag of the key is silently reset', ss_.where)
+    ctx.floor(R13, 6)
     ctx.floor(R1, 10)
     ctx.floor(R2, 10)
     ctx.floor(R3, 5)
